@@ -498,6 +498,20 @@ impl Engine {
             self.viol("C11", &format!("{}|got={:?}|a-leaf-mapping-changed-but-no-flush-token-was-returned", op, out.oc), &st.hist, Some(ai), "");
             clean = false;
         }
+        if let (Act::Map { page, frame, flags, .. }, Oc::Ok) = (&act, &out.oc) {
+            let (sz, va) = self.al.pages[*page as usize];
+            if sz == 0 {
+                // a new 4 KiB leaf entry is the bitwise union of the frame address and the flag word (C08), also when the two overlap
+                let want = self.al.frames[0][*frame as usize] | self.al.leaf_flags[*flags as usize];
+                match after.leaves.get(&(0, va)) {
+                    Some(&(addr, fl)) if addr | fl == want => {}
+                    got => {
+                        self.viol("C01", &format!("{}|new-leaf-entry-is-not-frame-address-union-flags-(reduced-oracle)", op), &st.hist, Some(ai), &format!("{:x?} expected entry {:#x}", got, want));
+                        clean = false;
+                    }
+                }
+            }
+        }
         if matches!(act, Act::SetP { flags, .. } if flags != PARENT_P4_HUGE) && out.oc == Oc::Ok {
             // holds in every state: a parent-flag setter rewrites flag bits of one entry; it never turns a leaf into a table
             // pointer (or back), whatever flags the leaf carries
